@@ -4,11 +4,31 @@ import schedcheck
 PROPS = ["Props/C04.v"]
 
 
+def units_first(ctx):
+    """the very first project of every worker process: the same duration text ("1d", "2d", "1w") as working time
+    (gaplength) on the edge that is evaluated first and as calendar time (gapduration) on a later one - whatever a
+    process remembers about a duration text must not depend on which meaning it met first"""
+    import projects
+    import common
+    out = []
+    for i in range(common.NPROC):
+        k, txt = [(1, 1440), (2, 2880), (1, 1440)][i % 3]
+        ap = {"start": projects.MON, "dur": ("w", 4), "G": 3600, "tz": "Etc/UTC", "vac": [], "gleaves": [], "shifts": {},
+              "resources": [{"id": f"r{j}", "eff": "1.0", "leaves": []} for j in range(3)],
+              "tasks": [{"id": "a", "effort": 360, "alloc": ["r0"], "prio": 900},
+                        {"id": "x", "effort": 120, "alloc": ["r1"], "prio": 800, "deps": [{"to": ["a"], "style": "abs", "gaplen": 480 * k, "gaplen_days": True}]},
+                        {"id": "y", "effort": 120, "alloc": ["r2"], "prio": 100, "deps": [{"to": ["a"], "style": "abs", "gap": txt}]}],
+              "_family": "unitsfirst", "_i": i}
+        out.append(ap)
+    return out
+
+
 def run(ctx):
     schedcheck.run(ctx, "C04", PROPS,
-                   [("deps", 150, 1500), ("coredeps", 80, 800), ("core", 40, 400), ("alap", 100, 1000), ("alapcore", 100, 1000), ("sd", 60, 600), ("dupprec", 60, 500), ("taskalap", 40, 400), ("subslot", 40, 300), ("alapnest", 100, 800), ("maxgapdeps", 100, 800)],
+                   [("deps", 150, 1500), ("coredeps", 80, 800), ("core", 40, 400), ("alap", 100, 1000), ("alapcore", 100, 1000), ("sd", 60, 600), ("dupprec", 60, 500), ("taskalap", 40, 400), ("subslot", 40, 300), ("alapnest", 100, 800), ("maxgapdeps", 100, 800), ("gaplenmix", 60, 500)],
                    ["c04"],
                    ["edges are re-derived from the abstract project (own, inherited from every ancestor, 'precedes' inverted)",
                     "the theorem covers forward mode in the whole-slot dialect; backward (ALAP) mode, mid-slot gaps and milestones are checked on the implementation by the oracle only",
                     "on-start edges in backward mode and chains mixing modes are not claimed (property text)"],
-                   "corpus first; random DAGs over nested trees (depth <= 3), gaps incl. non-slot multiples, on-start/on-end, relative and absolute references, precedes, dependencies on containers, dated containers, pinned starts; ASAP, project-level ALAP with deadlines on sinks and containers, task-level ALAP")
+                   "corpus first; random DAGs over nested trees (depth <= 3), gaps incl. non-slot multiples, on-start/on-end, relative and absolute references, precedes, dependencies on containers, dated containers, pinned starts; ASAP, project-level ALAP with deadlines on sinks and containers, task-level ALAP; edges that also carry a maximum gap; gaps in days as calendar time and as working time, the working-time meaning met first in every worker process",
+                   first_cases=units_first)
